@@ -621,6 +621,16 @@ impl<'tcx> Cx<'tcx> {
                 if self.tcx.intrinsic(def).is_some() {
                     o.put("intrinsic", J::B(true));
                 }
+                if matches!(self.tcx.def_kind(def), DefKind::Fn | DefKind::AssocFn) {
+                    let attrs = self.tcx.codegen_fn_attrs(def);
+                    if !attrs.target_features.is_empty() {
+                        let mut tf = Vec::new();
+                        for f in attrs.target_features.iter() {
+                            tf.push(jstr(f.name.to_string()));
+                        }
+                        o.put("target_features", J::A(tf));
+                    }
+                }
                 match Instance::try_resolve(self.tcx, env, def, args) {
                     Ok(Some(inst)) => {
                         let ij = self.instance_json(inst);
